@@ -424,7 +424,7 @@ def reportsOk (f : FSys) (k g : Nat) (o : List Seq) : Prop :=
     ((pc = .emitted ∨ pc = .stateSet ∨ pc = .stSet) → Seq.c0 0x1B ∈ o) ∧
     (pc = .gone → Seq.c0 0x1B ∈ o)
 
-theorem set_getElem?_ne {α : Type} (l : List α) (i k : Nat) (a : α) (h : i ≠ k) : (l.set i a)[k]? = l[k]? := by
+theorem set_get_other {α : Type} (l : List α) (i k : Nat) (a : α) (h : i ≠ k) : (l.set i a)[k]? = l[k]? := by
   simp [h]
 
 /-- **A lone ESC followed by silence is reported, in every interleaving.**  Take any state in which
@@ -558,7 +558,7 @@ theorem fine_lone_esc_reported (T : Table) (ls : List FLabel) :
                 | gone => cases h1
               · -- another callback: it touches neither the generation nor the entry of callback k
                 have hkeep : ∀ c, (f.cbs.set j c)[k]? = some (g, pc) := fun c => by
-                  rw [set_getElem?_ne _ _ _ _ hjk]; exact hk
+                  rw [set_get_other _ _ _ _ hjk]; exact hk
                 cases pcj with
                 | started =>
                   simp only at h1; split at h1
